@@ -299,8 +299,9 @@ def _nk_gen(rng, big):
     for _ in range(rng.choice([0, 1, 2, 2, 3])):
         p[rng.randrange(h)][rng.randrange(w)] = rng.choice([1, 2, 3, 4, -1])
     inst = {"h": h, "w": w, "p": p}
-    if rng.random() < 0.3 and any(v == -1 for r in p for v in r):
-        inst["unknown_low"] = rng.choice([1, 2, 3])
+    if rng.random() < 0.3:
+        # the lower bound applies to '?' islands only (also when the board has none)
+        inst["unknown_low"] = rng.choice([1, 2, 3, 4])
     return inst
 
 
@@ -438,6 +439,9 @@ shading("heyawake", _hey_gen, _hey_valid, _hey_solve)
 # ---- akari
 def _ak_gen(rng, big):
     h, w = pick_shape(rng, SHAPES, 12 if big else 9)
+    if rng.random() < 0.5:
+        # mostly white boards with a few walls: long runs that start / end at unnumbered walls, numbered walls and the edge
+        return {"h": h, "w": w, "p": [[rng.choice([-2] * 8 + [-1, -1, 0, 1, 2, 4]) for _ in range(w)] for _ in range(h)]}
     return {"h": h, "w": w, "p": [[rng.choice([-2, -2, -2, -1, 0, 1, 2, 3]) for _ in range(w)] for _ in range(h)]}
 
 
@@ -626,7 +630,22 @@ def _nm_gen(rng, big):
     h, w = pick_shape(rng, SHAPES, 12 if big else 9)
     p = [[-1] * w for _ in range(h)]
     for _ in range(rng.choice([0, 1, 1, 2, 3])):
-        p[rng.randrange(h)][rng.randrange(w)] = rng.choice([0, 0, 2, 3, 4])
+        y, x = rng.randrange(h), rng.randrange(w)
+        if rng.random() < 0.4:
+            # a numbered cape whose ray of exactly that length ends at the board edge (in a random direction)
+            d = rng.choice(["r", "l", "d", "u"])
+            n = rng.randint(2, max(2, (w if d in "rl" else h)))
+            if d == "r" and w - n >= 0:
+                x = w - n
+            elif d == "l" and n - 1 < w:
+                x = n - 1
+            elif d == "d" and h - n >= 0:
+                y = h - n
+            elif d == "u" and n - 1 < h:
+                y = n - 1
+            p[y][x] = n
+        else:
+            p[y][x] = rng.choice([0, 0, 2, 3, 4])
     return {"h": h, "w": w, "p": p}
 
 
@@ -1445,8 +1464,10 @@ def _five_gen(rng, big):
             p[y][x] = -2
         if rng.random() < 0.15 and holes == 0:
             p[rng.randrange(h)][rng.randrange(w)] = -2  # cell count not a multiple of 5: unsolvable
+        near = [(y, x) for y, x in cells if p[y][x] == -1 and any(0 <= y + dy < h and 0 <= x + dx < w and p[y + dy][x + dx] == -2 for dy, dx in N4)]
         for _ in range(rng.choice([0, 1, 2, 3])):
-            y, x = rng.randrange(h), rng.randrange(w)
+            # half of the clues sit next to a hole (each side of a hole is a border the clue has to count)
+            y, x = rng.choice(near) if near and rng.random() < 0.5 else (rng.randrange(h), rng.randrange(w))
             if p[y][x] == -1:
                 p[y][x] = rng.choice([0, 1, 2, 3, 4])
         return {"h": h, "w": w, "p": p}
